@@ -1,12 +1,14 @@
 """C13 — hash256 is a structural fingerprint computed as real SHA-256 (DESIGN.md §5 C13)."""
 import vcheck, os
 
-MODULES = ["BeffVerif.Props.C13", "BeffVerif.Props.C13Inj", "BeffVerif.Props.C13Tree", "BeffVerif.Props.C13Rec", "BeffVerif.Props.C13Names", "BeffVerif.Props.C13Total", "BeffVerif.Props.C13Hash32"]
+MODULES = ["BeffVerif.Props.C13", "BeffVerif.Props.C13Inj", "BeffVerif.Props.C13Tree", "BeffVerif.Props.C13Rec", "BeffVerif.Props.C13Names", "BeffVerif.Props.C13Total", "BeffVerif.Props.C13Hash32", "BeffVerif.Props.Consts"]
 AUDIT = "BeffVerif/Audit/C13.lean"
 
 def run(chk):
     chk.build_js()
     tok, tmsg = chk.translate("sha_consts.py")   # (T): regenerate Gen/ShaConsts.lean from hash.ts
+    tok2, tmsg2 = chk.translate("client_consts.py")   # (T): the tags hash256 writes (Gen/ClientConsts.lean)
+    tok, tmsg = tok and tok2, tmsg + "; " + tmsg2
     ok, out = chk.build_lean(MODULES) if tok else (False, tmsg)
     aok, bad, banned, txt = chk.audit_lean(AUDIT) if ok else (False, [("<build failed>", [])], [], out)
     chk.trusted += [
